@@ -258,6 +258,12 @@ def _clip(a, lo, hi, **k):
     if has_sym(a) or has_sym(lo) or has_sym(hi):
         def f(e, l, h):
             r = e
+            if type(e).__name__ == "Q":            # rational functions: decide the side (fork)
+                if l is not None and bool(r < l):
+                    return l
+                if h is not None and bool(r > h):
+                    return h
+                return r
             if l is not None:
                 r = Ite(r < l, l, r)
             if h is not None:
